@@ -1748,8 +1748,13 @@ func (f *fragment) topBitmapPairs(rowIDs []uint64) []bitmapPair {
 	// Otherwise retrieve specific rows.
 	pairs := make([]bitmapPair, 0, len(rowIDs))
 	for _, rowID := range rowIDs {
-		// Look up cache first, if available.
-		if n := f.cache.Get(rowID); n > 0 {
+		// Look up cache first, if available. The LRU cache has no lock of
+		// its own and a lookup reorders its list, so it needs the fragment
+		// lock like every other cache access.
+		f.mu.Lock()
+		n := f.cache.Get(rowID)
+		f.mu.Unlock()
+		if n > 0 {
 			pairs = append(pairs, bitmapPair{
 				ID:    rowID,
 				Count: n,
